@@ -299,6 +299,18 @@ const SOURCES: &[&str] = &[
     "dyn([m, l])",
     "{'k': m, 'l': l}",
     "x ==",
+    // bodies that fail differently per key: which failure is reported depends on the visiting order
+    "m.filter(k, [10 / (m[k] - 1)][m[k] - 1] > 0)",
+    "m.map(k, [10 / (m[k] - 1)][m[k] - 1])",
+    "coalesce(m.map(k, m[k] == 1 ? zz : 1 / 0), 'none')",
+    // functions that could keep state between calls (compiled patterns, parsed zones)
+    "s.matches('s.r')",
+    "s.matches('(')",
+    "s.matches(s)",
+    "'str'.matches('(')",
+    "l.filter(e, string(e).matches('[12]')).size()",
+    "timestamp(x).getHours('Europe/Berlin')",
+    "timestamp(x).getHours('Nowhere/Land')",
 ];
 
 fn gen_op(g: &mut G, env: &Env, cfg: &Cfg) -> Op {
@@ -390,6 +402,8 @@ fn small_alphabet() -> Vec<Op> {
         Op::Add { ctx: 0, name: 0, src: "m.map(k, k)".into() },
         Op::Add { ctx: 1, name: 0, src: "x * 10".into() },
         Op::Add { ctx: 0, name: 1, src: "a".into() },
+        Op::Add { ctx: 0, name: 0, src: "s.matches('s.r')".into() },
+        Op::Add { ctx: 0, name: 0, src: "s.matches('(')".into() },
         Op::Bind { b: 0, var: "x".into(), val: V::Int(1) },
         Op::Bind { b: 0, var: "x".into(), val: V::Int(2) },
         Op::Bind { b: 1, var: "x".into(), val: V::Int(3) },
@@ -401,20 +415,34 @@ fn small_alphabet() -> Vec<Op> {
     ]
 }
 
+/// `src` may be several programs separated by " ;; ": every thread executes them in that order,
+/// 8 rounds, and each program's result must be the same on every thread and in every round
 fn check_threads(src: &str, binds: &BTreeMap<String, V>, acc: &mut Acc) -> Vec<Failure> {
+    let srcs: Vec<&str> = src.split(" ;; ").collect();
     let mut progs = BTreeMap::new();
     progs.insert("c".to_string(), "x * 2".to_string());
-    progs.insert("main".to_string(), src.to_string());
-    let want = fresh_exec(&progs, binds, "main");
-    let mut results: Vec<String> = Vec::new();
+    for (i, s) in srcs.iter().enumerate() {
+        progs.insert(format!("main{}", i), s.to_string());
+    }
+    // the reference results come from a thread of their own that has executed nothing else
+    let want: Vec<String> = (0..srcs.len())
+        .map(|i| {
+            let progs = &progs;
+            std::thread::scope(|s| s.spawn(move || fresh_exec(progs, binds, &format!("main{}", i))).join().unwrap_or_default())
+        })
+        .collect();
+    let mut results: Vec<(usize, String)> = Vec::new();
     std::thread::scope(|s| {
         let hs: Vec<_> = (0..16)
             .map(|_| {
                 let progs = &progs;
+                let n = srcs.len();
                 s.spawn(move || {
                     let mut v = Vec::new();
                     for _ in 0..8 {
-                        v.push(fresh_exec(progs, binds, "main"));
+                        for i in 0..n {
+                            v.push((i, fresh_exec(progs, binds, &format!("main{}", i))));
+                        }
                     }
                     v
                 })
@@ -427,10 +455,10 @@ fn check_threads(src: &str, binds: &BTreeMap<String, V>, acc: &mut Acc) -> Vec<F
     acc.case("threads", src, true, "threads");
     acc.eval_only("threads", results.len() as u64);
     acc.sample("threads", || json!({"source": src, "result": want, "executions": results.len()}));
-    if let Some(bad) = results.iter().find(|r| **r != want) {
+    if let Some((i, bad)) = results.iter().find(|(i, r)| *r != want[*i]) {
         return vec![Failure::new(
             "c11:threads:results-differ",
-            format!("{} gave {} on one thread/repetition and {} on another", src, want, bad),
+            format!("{} gave {} on a thread that had run nothing else and {} on another thread/repetition", srcs[*i], want[*i], bad),
             json!({"kind": "threads", "source": src}),
         )];
     }
@@ -456,6 +484,7 @@ fn run(opts: &Opts, acc: &mut Acc) {
             let mut ops: Vec<Op> = vec![
                 Op::Bind { b: 0, var: "m".into(), val: V::Map([("k2".to_string(), V::Int(1)), ("k1".to_string(), V::Int(2)), ("a".to_string(), V::Int(3)), ("zz".to_string(), V::Int(4))].into_iter().collect()) },
             ];
+            ops.push(Op::Bind { b: 0, var: "s".into(), val: V::s("str") });
             ops.extend(s.iter().map(|i| alpha[*i].clone()));
             ops.push(Op::Exec { ctx: 0, name: 0, b: 0, twice: true });
             ops.push(Op::Exec { ctx: 1, name: 0, b: 1, twice: false });
@@ -464,12 +493,29 @@ fn run(opts: &Opts, acc: &mut Acc) {
                 a.fail(f);
             }
         });
-        acc.mark_exhaustive("short-sequences", "all sequences of length 1..3 over a 12-operation alphabet, each followed by three observing execs");
+        acc.mark_exhaustive("short-sequences", "all sequences of length 1..3 over a 14-operation alphabet, each followed by three observing execs");
         let mut binds = BTreeMap::new();
         binds.insert("x".to_string(), V::Int(3));
         binds.insert("l".to_string(), V::List((0..40).map(V::Int).collect()));
         binds.insert("m".to_string(), V::Map((0..12).map(|i| (format!("key{}", i), V::Int(i))).collect()));
-        for src in ["m.map(k, k)", "m.filter(k, m[k] > 3)", "l.map(e, e + c)", "{'b': 1, 'a': x, 'c': 3}.map(k, k)", "l.reduce(acc, e, acc + e, 0)", "[m, l, x]"] {
+        binds.insert("s".to_string(), V::s("str"));
+        for src in [
+            "m.map(k, k)",
+            "m.filter(k, m[k] > 3)",
+            "l.map(e, e + c)",
+            "{'b': 1, 'a': x, 'c': 3}.map(k, k)",
+            "l.reduce(acc, e, acc + e, 0)",
+            "[m, l, x]",
+            // key0 divides by zero, every other key indexes past the end: the first key in the fixed order decides
+            "m.filter(k, [10 / m[k]][m[k]] > 0)",
+            "m.map(k, [10 / m[k]][m[k]])",
+            "{'b': x, 'a': x - 3, 'c': x}.filter(k, [1 / ({'b': x, 'a': x - 3, 'c': x}[k])][{'b': x, 'a': x - 3, 'c': x}[k]] > 0)",
+            "coalesce(m.map(k, m[k] == 0 ? zz : 1 / 0), 'none')",
+            "s.matches('s.r') ;; s.matches('(') ;; s.matches('(') ;; s.matches('^x') ;; s.matches('s.r')",
+            "'str'.matches('s.r') ;; 'str'.matches('(')",
+            "timestamp(x).getHours('Europe/Berlin') ;; timestamp(x).getHours('Nowhere/Land') ;; timestamp(x).getHours('Nowhere/Land') ;; timestamp(x).getHours('+02:00')",
+            "int('12') ;; int('zz') ;; int('zz') ;; double('1e3') ;; double('e') ;; duration('1h') ;; duration('1x') ;; duration('1x')",
+        ] {
             for f in check_threads(src, &binds, acc) {
                 acc.fail(f);
             }
@@ -503,6 +549,7 @@ fn replay(_opts: &Opts, d: &Value, acc: &mut Acc) {
         binds.insert("x".to_string(), V::Int(3));
         binds.insert("l".to_string(), V::List((0..40).map(V::Int).collect()));
         binds.insert("m".to_string(), V::Map((0..12).map(|i| (format!("key{}", i), V::Int(i))).collect()));
+        binds.insert("s".to_string(), V::s("str"));
         for f in check_threads(src, &binds, acc) {
             acc.fail(f);
         }
